@@ -374,6 +374,12 @@ class Table(JupyterMixin):
             column._cells.append(renderable)
 
         cell_renderables: List[Optional["RenderableType"]] = list(renderables)
+        # a row is added whole or not at all: check every cell before the first one is stored
+        for renderable in cell_renderables:
+            if renderable is not None and not is_renderable(renderable):
+                raise errors.NotRenderableError(
+                    f"unable to render {type(renderable).__name__}; a string or other renderable object is required"
+                )
 
         columns = self.columns
         if len(cell_renderables) < len(columns):
